@@ -39,7 +39,15 @@ def templates(ctx):
             {'name': 'mul-dimless', 'mode': 'unitop', 'op': 'mul'}, {'name': 'div-dimless', 'mode': 'unitop', 'op': 'div'},
             # the database search behind unit products / quotients: whatever it returns has the dimension and (within the crate's own
             # tolerance) the scale that was asked for - symbolic dimension and scale over the real generated table
-            {'name': 'match-units', 'mode': 'match', 'max_steps': 4000000}]
+            {'name': 'match-units', 'mode': 'match', 'max_steps': 4000000}] + \
+           [{'name': 'muldiv-%s-%s-%s' % (op, a, b), 'mode': 'muldiv', 'op': op, 'a': a, 'b': b, 'max_steps': 4000000} for a, b, op in MULDIV_PAIRS]
+
+
+# pairs of database units whose product / quotient has a same-named unit in the table or none at all: whatever the operator
+# returns must have the dimension and (within the crate's tolerance) the scale of the product / quotient
+MULDIV_PAIRS = [('pound', 'square_inch', 'div'), ('foot', 'pounds_per_second', 'mul'), ('joule', 'gram', 'div'), ('imperial_gallon', 'minute', 'div'),
+                ('watt', 'square_meter', 'div'), ('kilowatt', 'hour', 'mul'), ('meter', 'second', 'div'), ('newton', 'meter', 'mul'),
+                ('gram', 'kilogram', 'div'), ('volt', 'ampere', 'mul'), ('kilogram', 'cubic_meter', 'div'), ('ampere', 'foot', 'div')]
 
 
 def path(ex, t):
@@ -64,6 +72,14 @@ def path(ex, t):
         r = ex.call_body(prog.find_method(nt, tr, t['op']), [Agg(nt, 0, [x, ua]), Agg(nt, 0, [y, ub])])
         ex.side['pa'] = pa; ex.side['pb'] = pb
         return r
+    if t['mode'] == 'muldiv':
+        from mirsym.hv import HV
+        h = HV(ex)
+        a = h.unit(t['a']); b = h.unit(t['b'])
+        ex.side['in'] = {'a': a, 'b': b}
+        tr = {'mul': 'Mul', 'div': 'Div'}[t['op']]
+        cands = [k for k in prog.impl_methods if k[1] == tr and k[2] == t['op'] and 'Unit' in k[0]]
+        return ex.call_body(prog.impl_methods[cands[0]][0][0], [a, b])
     if t['mode'] == 'match':
         dt = prog.canon_type('units::unit_dimension::UnitDimensions')
         dv = [z3.BitVec('md%d' % i, 8) for i in range(7)]
@@ -193,6 +209,22 @@ def post(ex, t, r):
             dq = z3.And([a_ == b_ for a_, b_ in zip(deref(ex, ud.fields[0]).fields, I['dims'])]) if ud.variant == 1 else z3.BoolVal(False)
             bad = z3.Not(z3.And(dq, close))
             if viol is None and ex.sat(bad) is not None: viol = 'returns-a-unit-of-another-dimension-or-scale'; cond = bad
+    if r.kind == 'ok' and t['mode'] == 'muldiv':
+        def U(p):
+            u = p
+            while isinstance(u, Ptr): u = ex.load(u)
+            dd = deref(ex, u.fields[2])
+            dims = None if dd.variant == 0 else [x - 256 if x >= 128 else x for x in deref(ex, dd.fields[0]).fields]
+            return bytes(deref(ex, u.fields[1]).items[0].items).decode(), dims, float(u.fields[3])
+        na, da, sa = U(I['a']); nb, db, sb = U(I['b'])
+        if r.value.variant == 0:
+            nu, du, su = U(r.value.fields[0])
+            want_d = None if (da is None or db is None) else [x + y if t['op'] == 'mul' else x - y for x, y in zip(da, db)]
+            want_s = sa * sb if t['op'] == 'mul' else sa / sb
+            close = su == want_s or abs(su - want_s) <= min(abs(su / 1e3), abs(want_s / 1e3))
+            s['result'] = nu
+            if du != want_d or not close: viol = 'result-of-another-dimension-or-scale'; s['detail2'] = '%s %s %s = %s with dims %s scale %r, expected dims %s scale %r' % (na, t['op'], nb, nu, du, su, want_d, want_s)
+        else: s['result'] = None
     if r.kind == 'ok' and t['mode'] == 'unitop':
         if r.value.variant == 0: viol = 'dimensionless-accepted'
     if r.kind == 'panic': viol = 'panic'
@@ -216,6 +248,8 @@ def post(ex, t, r):
                             'ub': None if sh == 3 else (unit_json(cz, I['b']) if sh in (1, 2) else None), 'same_unit': sh == 0,
                             'x': f2bits(cz.c(I['x'])), 'y': f2bits(cz.c(I['y']))}
         if r.kind == 'ok': s['result'] = None if r.value.variant == 1 else f2bits(cz.c(r.value.fields[0].fields[0]))
+    elif t['mode'] == 'muldiv':
+        s['native_case'] = {'api': 'unit_muldiv', 'a': t['a'], 'b': t['b'], 'op': t['op']}
     elif t['mode'] == 'match':
         dv = [cz.c(x) for x in I['dims']]; dv = [x - 256 if x >= 128 else x for x in dv]
         s['native_case'] = {'api': 'match_units', 'dims': dv, 'scale': f2bits(cz.c(I['scale']))}
@@ -247,6 +281,14 @@ def run(ctx):
         if n is not None:
             if 'ok' not in n and not (s['kind'] == 'panic' and 'panic' in n):
                 mism += 1; print('MODEL-MISMATCH %s: %s vs native %s' % (s['template'], s['kind'], str(n)[:200])); continue
+            if s['kind'] == 'ok' and s['mode'] == 'muldiv':
+                o = n['ok']; gotn = None if 'err' in o else o['name']
+                if gotn != s.get('result'):
+                    mism += 1; print('MODEL-MISMATCH %s: mirsym %s native %s' % (s['template'], s.get('result'), gotn)); continue
+                validated += 1
+                if s.get('viol'):
+                    ctx.report('units.muldiv:%s' % s['viol'], s.get('detail2', s['template']) + ' (native: %s)' % json.dumps(o)[:200], case=s['native_case'])
+                continue
             if s['kind'] == 'ok' and s['mode'] == 'match':
                 nn = sorted(set(x['name'] for x in n['ok']))
                 if nn != s['result']:
